@@ -16,7 +16,13 @@ use std::io::{Error, Read};
 ///
 pub struct Parser<Lexer> {
     lexer: Lexer,
+    // Current nesting depth of parenthesised expressions
+    depth: usize,
 }
+
+/// Maximum nesting depth of parenthesised expressions.
+/// The parser is recursive, so deeper input would exhaust the stack.
+const MAX_NESTING_DEPTH: usize = 128;
 
 // Internal constant tokens to be used when comparing against current tokens
 lazy_static! {
@@ -27,7 +33,7 @@ lazy_static! {
 impl<'a, R: Read> Parser<Lexer<Scanner<'a, R>>> {
     pub(crate) fn make(input: &'a mut R) -> Result<Self, Error> {
         let lexer = Lexer::make(input)?;
-        Ok(Self { lexer })
+        Ok(Self { lexer, depth: 0 })
     }
 
     pub fn parse(&mut self) -> Result<Or, Error> {
@@ -134,8 +140,14 @@ impl<'a, R: Read> Parser<Lexer<Scanner<'a, R>>> {
     }
 
     fn parse_parens(&mut self) -> Result<Parens, Error> {
+        if self.depth >= MAX_NESTING_DEPTH {
+            return self.make_generic_err("Nesting too deep.");
+        }
         self.lexer.read()?;
-        let or = self.parse_or()?;
+        self.depth += 1;
+        let or = self.parse_or();
+        self.depth -= 1;
+        let or = or?;
         if self.lexer.cur.value != Some(TokenValue::RightParens) {
             return self.make_generic_err("Expecting ')'.");
         }
